@@ -39,7 +39,7 @@ R=[
 ('C39', r'^rename'+F+r':target-local:object-lost', 'Rename, addressed to a step board, to a name that the same board deletes further down (`a: null`) is not made unique (the nulled name counts as free): the renamed object is then removed by the null'),
 # C40
 ('C40', r'^deltas:delete'+F+r':connection:change-predicted-for-removed-element', 'DeleteIDDeltas of a container predicts a new ID for a connection between a child and the container itself (`(a.a -> a)[0]` -> `(a -> a)[0]`), but Delete removes that connection because it is attached to the deleted object'),
-('C40', r'^deltas:(delete|move):diagram-has-underscore-reference:connection:predicted-new-id-wrong', 'consequence of the underscore-stripping defect of Delete/Move (C38 delete-object:…:object-added): the surviving connection `e -> _.b` ends up attached to a new object d.b, so its ID is d.(e -> b)[0] while the prediction says (d.e -> b)[0]'),
+('C40', r'^deltas:(delete|move)'+F+r':connection:predicted-new-id-wrong', 'the prediction is what a correct edit would give; the edit itself misplaces the connection — Move of a container without descendants into its own child leaves `a.c.a -> e` (C39 move-without-descendants:object-added), and the consequence of the underscore-stripping defect of Delete/Move (C38 delete-object:…:object-added): the surviving connection `e -> _.b` ends up attached to a new object d.b, so its ID is d.(e -> b)[0] while the prediction says (d.e -> b)[0]'),
 ('C40', r'^deltas:(move|rename|reconnect|delete):diagram-has-import:', 'the *IDDeltas functions predict new IDs for imported objects/connections (or for local elements next to them), while Rename/Move/ReconnectEdge/Delete succeed without being able to change an imported element (see C39 …:diagram-has-import:object-added, C38 …:diagram-has-import:…)'),
 ('C40', r'^deltas:move'+F+r':object:predicted-new-id-wrong', 'MoveIDDeltas applies the would-be-hoisted-children conflict renames (`a.b` -> `z.b 3`) also for a same-scope move without descendants, where Move keeps the children under the renamed object unchanged (`z.b`)'),
 ('C40', r'^deltas:reconnect'+F+r':connection:predicted-change-did-not-happen', 'ReconnectEdgeIDDeltas treats connections with the same end points but different arrow directions (`a <- b` and `a -> b`) as parallel and predicts index shifts for them; the edit does not renumber them'),
